@@ -37,6 +37,8 @@ class QuadratureRule:
         """Hash."""
         if self._hash is None:
             self.hash_obj = hashlib.sha1(self.points)
+            # Rules that share their points but not their weights are different rules
+            self.hash_obj.update(np.ascontiguousarray(self.weights))
             self._hash = int(self.hash_obj.hexdigest(), 32)
         return self._hash
 
@@ -51,7 +53,10 @@ class QuadratureRule:
             This identifier is used to provide unique names to tables and symbols
             in generated code.
         """
-        return self.hash_obj.hexdigest()[-3:]
+        # NOTE: three hex digits (4096 values) collided for rules that can meet in one
+        # kernel, e.g. the default triangle rules of degree 15 and 26
+        hash(self)
+        return self.hash_obj.hexdigest()[-10:]
 
 
 def create_quadrature_points_and_weights(
